@@ -19,6 +19,8 @@ theorem uses_own {c : Cfg} {o : Orders} {s : State} {t i : Nat} (h : PcOK c o s 
   · exact h.1
   · exact h.1
   · exact h.1
+  · exact h
+  · exact h.1
   · exact h.1
 
 theorem CounterOK.same {s s' : State} {l : Loc} (h : CounterOK s l) (e : s'.mem.hist l = s.mem.hist l) :
@@ -117,6 +119,10 @@ theorem PcOK.frame {c : Cfg} {o : Orders} {s s' : State} {t : Nat} (h : PcOK c o
   case ul1 i =>
     obtain ⟨e1, e2, _, _⟩ := hown i (by simp [Pc.uses]); rw [e1, e2]; exact h
   case rl0 i =>
+    obtain ⟨e1, _, _, _⟩ := hown i (by simp [Pc.uses]); rw [e1]; exact h
+  case rl1 i =>
+    obtain ⟨e1, e2, _, _⟩ := hown i (by simp [Pc.uses]); rw [e1, e2]; exact h
+  case rl2 i =>
     obtain ⟨e1, e2, e3, _⟩ := hown i (by simp [Pc.uses]); rw [e1, e2, e3]; exact h
   case tk1 e =>
     obtain ⟨h1, h2, h3, h4⟩ := h
